@@ -1,13 +1,67 @@
+# C19  Paths, files and directories behave truthfully and stay inside their tree.
+# exec'ed at the end of props.py (opf and PROPS are in scope).
+#
+# Exclusion flags understood by the three harnesses (ctx.excluded); each removes exactly the triggering pattern:
+#   paths: C19-stem-first-dot          getStem / getExtension on a base name with >= 2 dots
+#          C19-relative-no-common      getRelativePath on two relative paths that share no first component, or whose target
+#                                      consists of the shared first component only (the answer has to climb to the start directory)
+#          C19-simplify-root-empty     simplifyPath on a rooted path that denotes the root itself ("/", "/a/..", "/."), and
+#                                      getRelativePath(from, to) with rooted from != root and to == root
+#   files: C19-rename-placeholder      rename(from, to, failIfExists=true) with a free destination name and a source that is
+#                                      missing or a directory (the rename after the placeholder fails)
+#          C19-copy-leaves-dest        copy(directory, dest) where dest can be created or truncated
+#          C19-copy-self-truncates     copy(file, same file, failIfExists=false)
+#          C19-readall-directory       static File::readAll(path of a directory)
+#   dirs:  C19-create-returns-true     Directory::create on a path that cannot become a directory (a prefix or the path itself is a
+#                                      regular file, a dangling link or a link to a file)
+#          C19-dirsonly-skips-dirlinks Directory::open(dir, pattern, dirsOnly=true) when a matching entry is a link to a directory
 PROPS["C19"] = {
     "level": "exploration",
-    "level_text": "TODO",
-    "level_note": "TODO",
-    "technique": "TODO",
-    "rule": "TODO",
-    "assumptions": [],
+    "level_text": "random inputs and operation histories against reference models: (paths) token strings over separators, dots and names against a "
+                  "reference lexical normaliser; (files) open/write/read/seek/copy/rename/unlink histories over three File objects against an "
+                  "in-memory inode model of a scratch directory that is compared with the real directory (listing, types, contents) after every "
+                  "operation; (dirs) Directory::create/unlink/exists/open+read on generated trees with symbolic links leaving the tree, with a "
+                  "snapshot of the whole scratch area (tree and an outside sentinel: names, types, contents, link targets) before and after every "
+                  "operation; under ASan and the allocation ledger; no exhaustiveness is claimed",
+    "level_note": "trusted: the reference normaliser in harness/c19_paths.cpp, the inode model in harness/c19_files.cpp, the path walker and "
+                  "snapshot code in harness/c19_dirs.cpp (plain POSIX lstat/stat/readdir/readlink/read, never the library under test), the "
+                  "kernel's file-system semantics on the scratch file system (ext4 here), ASan/UBSan, clang 14",
+    "technique": "property-based testing of pure functions against a reference normaliser; stateful model-based testing of file and directory "
+                 "operations against an in-memory model and full file-system snapshots of a per-worker scratch directory; ddmin shrinking",
+    "rule": "opfuzz. paths: 1..size ops per case; a path is 0..10 tokens from {/ \\ . .. a b c.d e.f.g .h x.. ..y c:} (free concatenation, or "
+            "separator/name alternation, rooted or not, doubled and trailing separators); getRelativePath pairs share a generated prefix in 4 of 5 "
+            "cases; extensions are taken from a table or are a real suffix of the path. Oracles: N(simplify(p)) == N(p), idempotence, simplified "
+            "shape; dir + last separator + base == p (no separator: '.', p); getBaseName(p, ext) strips exactly a matching extension; stem + '.' + "
+            "ext == base (no dot: base, ''); N(from / getRelativePath(from, to)) == N(to) for both rooted or both relative and no '..' left in "
+            "N(from); isAbsolutePath / getAbsolutePath consistent with the working directory. Non-trivial = a simplifyPath input with a '..' that "
+            "cancels and one that is kept, or a getRelativePath pair with a common prefix. "
+            "files: up to 6 set-up ops (files f0..f3 with contents, directories d0/d1 made with POSIX calls) and 1..size ops from open (all 16 flag "
+            "combinations), close, write (buffer and String), read, readAll, seek (3 origins, negative and beyond the end), size, position, "
+            "File::copy, File::rename (both failIfExists values), unlink, exists, static readAll, over 8 flat names plus a name below a missing "
+            "directory and a name below a regular file. Oracle: every returned byte string, count, position and boolean equals the model's; after "
+            "every op the scratch directory equals the model (a new entry, a missing entry, changed contents or type fail at once); descriptor "
+            "count unchanged at the end. Non-trivial = a failing operation among >= 3 successful ones. "
+            "dirs: 1..12 build ops (mkdir, file, symlink of 8 kinds: absolute/relative, to an outside file, outside directory, the sentinel root, "
+            "dangling) and 1..size ops; a path is the tree root or a current entry + 0..3 new names (or '/.', '/..') decorated with absolute "
+            "spelling, trailing '/', '//', './', 'x/../'. Oracles: create returns true <=> stat says directory afterwards; if nothing on the way "
+            "is a non-directory the directory must exist afterwards and exactly the missing directories were added; unlink returns true and "
+            "removes exactly the subtree for an empty directory or with recursive=true, returns false and changes nothing otherwise (non-empty "
+            "without recursive, file, link, missing); exists == stat; open/read lists exactly the entries that match the pattern ('*', '?') with "
+            "isDir == stat, dirsOnly == the isDir subset; after every op the sentinel and everything else outside the expected change is "
+            "byte-identical. Paths that run through a link to a directory denote a place outside the tree and are skipped for create/unlink "
+            "(counted), as is unlink('link/'). Non-trivial = a recursive unlink over a subtree with >= 1 live outside link and >= 2 levels. "
+            "distinct = distinct case text (64-bit hash).",
+    "assumptions": ["paths are NUL-free; '/' and '\\' are both separators, 'c:' is an ordinary component for the lexical functions",
+                    "getRelativePath is only checked where a lexical answer exists (both rooted or both relative, no '..' left in the simplified from)",
+                    "read/write/seek/size are never called on a closed File (the closed state is descriptor 0); a zero-length write on a read-only File is unspecified",
+                    "File::open(directory, read-only) may succeed or fail (POSIX allows opening a directory); the handle is closed at once and not used",
+                    "rename(directory, free name, failIfExists=true) may move the directory or refuse, but may not change anything when it refuses",
+                    "a failing Directory::create may leave some of the missing parents behind (mkdir -p semantics)",
+                    "a path whose prefix is a symbolic link to a directory, and 'link/' with a trailing separator, denote the outside directory: not generated for create/unlink",
+                    "the process runs with permission to modify everything inside its scratch directory; every worker uses <outdir>/scratch only"],
     "parts": [
-        opf("paths", ["harness/c19_paths.cpp"], {"cases": 20000, "maxsize": 12}, {"cases": 200000, "maxsize": 30, "workers": 16}),
-        opf("files", ["harness/c19_files.cpp"], {"cases": 20000, "maxsize": 30}, {"cases": 200000, "maxsize": 60, "workers": 16}),
-        opf("dirs", ["harness/c19_dirs.cpp"], {"cases": 20000, "maxsize": 20}, {"cases": 200000, "maxsize": 40, "workers": 16}),
+        opf("paths", ["harness/c19_paths.cpp"], {"cases": 1500000, "maxsize": 12}, {"cases": 15000000, "maxsize": 30, "workers": 16}),
+        opf("files", ["harness/c19_files.cpp"], {"cases": 50000, "maxsize": 30}, {"cases": 500000, "maxsize": 60, "workers": 16}),
+        opf("dirs", ["harness/c19_dirs.cpp"], {"cases": 15000, "maxsize": 20}, {"cases": 150000, "maxsize": 40, "workers": 16}),
     ],
 }
